@@ -16,117 +16,8 @@ from .encsum import all_summaries, derived_operand, canon, show_cells
 from .bitdom import INF
 
 
-# -- formula templates --------------------------------------------------------------------------------------------
-def lift_factories(facts):
-    """{factory name: (closure params, formula template)}; template nodes:
-       ('cmp', op, term, term) ('and', [..]) ('or', [..]) ('not', x) with terms ('NAME',) ('REG', fieldparam) ('IMM',)
-       ('param', p) ('const', v) ('mod', term, term)"""
-    fn = facts.funcs.get('transform_compressible')
-    if fn is None:
-        raise AnalysisError('anchor vanished: transform_compressible')
-    del RAW_COMPARES[:]
-    out = {}
-    for st in fn.body:
-        if not isinstance(st, ast.FunctionDef):
-            continue
-        inner = [s for s in st.body if isinstance(s, ast.FunctionDef)]
-        rets = [s for s in st.body if isinstance(s, ast.Return)]
-        if len(inner) != 1 or len(rets) != 1 or unparse(rets[0].value) != inner[0].name:
-            continue
-        cparams = [a.arg for a in st.args.args]
-        iparams = [a.arg for a in inner[0].args.args]
-        if len(iparams) != 3:
-            raise AnalysisError('predicate factory {}: inner signature changed'.format(st.name))
-        paths = IS.function_paths(facts, inner[0], cparams)
-        rp = [p for p in paths if p.end == 'return']
-        if len(rp) != 1 or len(paths) != 1:
-            raise AnalysisError('predicate factory {}: more than one path'.format(st.name))
-        val = [e for e in rp[0].events if e[0] == 'return'][-1][1]
-        out[st.name] = (cparams, to_formula(val, iparams, cparams, facts, st.name), st)
-    return out
-
-
-def to_formula(v, iparams, cparams, facts, fname):
-    i, p, e = [('name', x) for x in iparams]
-    k = v[0]
-    if k == 'cmp' and v[1] in ('in', 'not in') and v[3][0] == 'call' and v[3][1] == 'range' and len(v[3][2]) in (1, 2):
-        # x in range(a, b)  ==  a <= x and x < b
-        x = to_term(v[2], iparams_t(iparams)[0], iparams_t(iparams)[1], iparams_t(iparams)[2], cparams, facts, fname)
-        args = [to_term(a, iparams_t(iparams)[0], iparams_t(iparams)[1], iparams_t(iparams)[2], cparams, facts, fname) for a in v[3][2]]
-        lo, hi = (('const', 0), args[0]) if len(args) == 1 else (args[0], args[1])
-        f = ('and', [('cmp', '>=', x, lo), ('cmp', '<', x, hi)])
-        return f if v[1] == 'in' else ('not', f)
-    if k == 'cmp' and v[1] in ('in', 'not in') and v[3][0] in ('list', 'tuple', 'set'):
-        x = to_term(v[2], iparams_t(iparams)[0], iparams_t(iparams)[1], iparams_t(iparams)[2], cparams, facts, fname)
-        alts = [('cmp', '==', x, to_term(a, iparams_t(iparams)[0], iparams_t(iparams)[1], iparams_t(iparams)[2], cparams, facts, fname)) for a in v[3][1]]
-        f = ('or', alts)
-        return f if v[1] == 'in' else ('not', f)
-    if k == 'cmp':
-        return ('cmp', v[1], to_term(v[2], i, p, e, cparams, facts, fname), to_term(v[3], i, p, e, cparams, facts, fname))
-    if k == 'bool':
-        return (v[1], [to_formula(x, iparams, cparams, facts, fname) for x in v[2]])
-    if k == 'un' and v[1] == 'not':
-        return ('not', to_formula(v[2], iparams, cparams, facts, fname))
-    raise AnalysisError('predicate factory {}: result {} is not a comparison'.format(fname, show(v)))
-
-
-def iparams_t(iparams):
-    return [('name', x) for x in iparams]
-
-
-RAW_COMPARES = []
-
-
-def to_term(v, i, p, e, cparams, facts, fname):
-    if is_const(v):
-        return ('const', v[1])
-    if v[0] == 'name' and v[1] in cparams:
-        return ('param', v[1])
-    if v == ('attr', i, 'name'):
-        return ('NAME',)
-    if v[0] == 'call' and v[1] == 'lookup_register' and len(v[2]) == 1:
-        inner = v[2][0]
-        if inner[0] == 'call' and inner[1] == 'getattr' and len(inner[2]) == 2 and inner[2][0] == i:
-            f = inner[2][1]
-            return ('REG', ('param', f[1]) if f[0] == 'name' else ('const', f[1]))
-        if inner[0] == 'attr' and inner[1] == i:
-            return ('REG', ('const', inner[2]))
-    if v[0] == 'call' and v[1] == 'getattr' and len(v[2]) == 2 and v[2][0] == i:
-        # a register-kinded field compared as written (not normalised through lookup_register)
-        f = v[2][1]
-        RAW_COMPARES.append((fname, f[1]))
-        return ('REG', ('param', f[1]) if f[0] == 'name' else ('const', f[1]))
-    if v[0] == 'attr' and v[1] == i and v[2] in ('rd', 'rs1', 'rs2', 'rd_rs1'):
-        RAW_COMPARES.append((fname, v[2]))
-        return ('REG', ('const', v[2]))
-    if v[0] == 'mcall' and v[2] == 'eval' and v[1] == ('attr', i, 'imm'):
-        return ('IMM',)
-    if v[0] == 'call' and v[1] in facts.funcs and len(v[2]) >= 2 and v[2][0] == i and v[2][1] == p:
-        # wrapper around i.imm.eval (judged by R-auipc)
-        return ('IMM',)
-    if v[0] == 'bin' and v[1] == '%':
-        return ('mod', to_term(v[2], i, p, e, cparams, facts, fname), to_term(v[3], i, p, e, cparams, facts, fname))
-    raise AnalysisError('predicate factory {}: term {} outside the relation fragment'.format(fname, show(v)))
-
-
-def instantiate(template, binding):
-    k = template[0]
-    if k == 'param':
-        return ('const', binding[template[1]])
-    if k in ('const', 'NAME', 'IMM'):
-        return template
-    if k == 'REG':
-        f = instantiate(template[1], binding)
-        return ('REG', f[1])
-    if k == 'mod':
-        return ('mod', instantiate(template[1], binding), instantiate(template[2], binding))
-    if k == 'cmp':
-        return ('cmp', template[1], instantiate(template[2], binding), instantiate(template[3], binding))
-    if k in ('and', 'or'):
-        return (k, [instantiate(x, binding) for x in template[1]])
-    if k == 'not':
-        return ('not', instantiate(template[1], binding))
-    raise AnalysisError('template node {}'.format(k))
+# -- formulas ------------------------------------------------------------------------------------------------------
+from .predlift import lift_predicate, to_formula, to_term, RAW_COMPARES, INST, POS, ENV, factory_name   # noqa: E402,F401
 
 
 def eval_formula(f, tup):
@@ -155,8 +46,12 @@ def eval_term(t, tup):
         return tup.get('name')
     if k == 'REG':
         return tup.get(t[1])
-    if k == 'IMM':
+    if k in ('IMM', 'IMMC'):
         return tup.get('imm')
+    if k == 'ISARITH':
+        return True          # enumerated operands are literals
+    if k in ('ISOFFSET', 'KIND', 'UNDEF'):
+        return False         # ... not pc-relative label references, and their evaluation succeeds
     if k == 'mod':
         a, b = eval_term(t[1], tup), eval_term(t[2], tup)
         if a is None or b in (None, 0):
@@ -183,7 +78,7 @@ def mentions(f):
 def mentions_t(t):
     if t[0] == 'REG':
         return {t[1]}
-    if t[0] == 'IMM':
+    if t[0] in ('IMM', 'IMMC'):
         return {'imm'}
     if t[0] == 'mod':
         return mentions_t(t[1]) | mentions_t(t[2])
@@ -198,15 +93,25 @@ class Rule:
         names = [f[3][1] for f in formulas if f[0] == 'cmp' and f[1] == '==' and f[2] == ('NAME',) and f[3][0] == 'const']
         self.name = names[0] if len(names) == 1 else None
 
+    def enum_formulas(self):
+        """The formulas specialised to what the enumerations range over (literal operands: the immediate is a plain expression,
+        not a pc-relative label reference, and its evaluation succeeds)."""
+        if not hasattr(self, '_enum'):
+            assign = dict(ENUM_ASSIGN)
+            if getattr(self, 'inst_isa', None) is not None:
+                assign['KIND'] = lambda term, self=self: self.inst_isa(term[1]) if term[1].startswith('inst isa ') else False
+            self._enum = [simplify(f, assign) for f in self.formulas]
+        return self._enum
+
     def holds(self, tup):
-        return all(eval_formula(f, tup) for f in self.formulas)
+        return all(eval_formula(f, tup) for f in self.enum_formulas())
 
     def imm_bounds(self):
         """Interval and divisors mentioned for IMM (to bound the enumeration)."""
         lo, hi = None, None
         pts = set()
-        for f in self.formulas:
-            if f[0] == 'cmp' and f[2] == ('IMM',) and f[3][0] == 'const' and isinstance(f[3][1], int):
+        for f in (self.enum_formulas() if self.key is not None else self.formulas):
+            if f[0] == 'cmp' and f[2][0] in ('IMM', 'IMMC') and f[3][0] == 'const' and isinstance(f[3][1], int):
                 c = f[3][1]
                 if f[1] == '>=':
                     lo = c if lo is None else max(lo, c)
@@ -236,9 +141,9 @@ class Construction:
 class CompRel:
     def __init__(self, facts):
         self.facts = facts
-        self.factories = lift_factories(facts)
-        self.raw_compares = sorted(set(RAW_COMPARES))
+        del RAW_COMPARES[:]
         self.pa = LR.pass_analysis(facts, 'transform_compressible')
+        self.factories = {}        # factory name -> (None, None, defining function node)
         self.rules = []
         self.constructions = {}
         self.unbuilt = []
@@ -250,13 +155,15 @@ class CompRel:
             if key not in seen:
                 seen.add(key)
                 forms = []
-                for fac, args in preds:
-                    if fac not in self.factories:
-                        raise AnalysisError('criteria[{!r}] uses unknown predicate factory {}'.format(key, fac))
-                    cparams, tmpl, node = self.factories[fac]
-                    if len(cparams) != len(args):
-                        raise AnalysisError('criteria[{!r}]: {} called with {} arguments'.format(key, fac, len(args)))
-                    forms.append(instantiate(tmpl, dict(zip(cparams, args))))
+                for f, fname, node in self.pa.lifted(key, preds):
+                    forms.append(f)
+                    top = node
+                    par = getattr(node, '_parent', None)
+                    while par is not None and par is not self.pa.fn:
+                        if isinstance(par, ast.FunctionDef):
+                            top = par
+                        par = getattr(par, '_parent', None)
+                    self.factories.setdefault(fname, (None, None, top))
                 self.rules.append(Rule(key, preds, forms))
             news = [(v, n) for v, n in r['app_values'] if v[0] == 'new']
             if r['path'].end == 'raise' or not news:
@@ -280,6 +187,21 @@ class CompRel:
                 break
         self.rules.sort(key=lambda ru: order.index(ru.key) if ru.key in order else 999)
         self.order = order
+        for ru in self.rules:
+            ru.inst_isa = self.class_oracle(ru)
+        self.raw_compares = sorted(set(RAW_COMPARES))
+
+    def class_oracle(self, ru):
+        """`inst isa X` for the items a rule applies to: the class parse_item / the expansions build for the rule's mnemonic."""
+        classes = self.pa.mn_classes.get(ru.name, set()) if ru.name else set()
+
+        def isa(text):
+            cls = text[len('inst isa '):]
+            if not classes or cls not in self.facts.classes:
+                return False
+            vals = {bool(self.facts.is_subclass(c, cls)) for c in classes}
+            return vals.pop() if len(vals) == 1 else False
+        return isa
 
     # -- original-instruction side --------------------------------------------------------------------------------
     def item_fields(self, mnemonic):
@@ -321,7 +243,7 @@ class CompRel:
         doms = [self.field_domain(rule.name, a, rule) for a in attrs]
         # unary atoms prune each field's domain before the product is taken
         for idx, a in enumerate(attrs):
-            unary = [f for f in rule.formulas if mentions(f) == {a}]
+            unary = [f for f in rule.enum_formulas() if mentions(f) == {a}]
             if unary:
                 doms[idx] = [v for v in doms[idx] if all(eval_formula(f, {a: v, 'name': rule.name}) for f in unary)]
         earlier = self.rules[:self.rules.index(rule)]
@@ -400,3 +322,126 @@ def expand(mnemonic, ops):
     for role, src in mapping.items():
         fields[role] = src[1] if isinstance(src, tuple) else ops[src]
     return base, fields
+
+
+# -- rules that discard the immediate --------------------------------------------------------------------------------------------
+def terms_of(f, out=None):
+    """All terms occurring in a formula."""
+    out = [] if out is None else out
+    k = f[0]
+    if k == 'cmp':
+        for t in (f[2], f[3]):
+            out.append(t)
+            if t[0] == 'mod':
+                out.extend([t[1], t[2]])
+    elif k in ('and', 'or'):
+        for x in f[1]:
+            terms_of(x, out)
+    elif k == 'not':
+        terms_of(f[1], out)
+    return out
+
+
+def check_final_immediates(report, rel, rule):
+    """A rule whose compressed form has no immediate (c.jr / c.jalr / c.mv from addi / c.nop) is selected by testing the immediate
+    at a moment when labels still move (this very replacement moves them).  The dropped value is never looked at again, so the
+    test must be about a value that cannot change any more: the immediate must be known to be a plain arithmetic expression and
+    be evaluated without the label table.  Otherwise the %lo half of a far call / tail, or %lo(sym) of a lui/addi pair, that is 0
+    now and -2 after the shift is silently discarded."""
+    n = 0
+    for ru in rel.rules:
+        con = rel.constructions.get(ru.key)
+        if con is None or ru.name is None:
+            continue
+        cls, attrs = rel.item_fields(ru.name)
+        if cls is None or 'imm' not in attrs:
+            continue
+        keeps = any(IS.contains(v, ('attr', rel.pa.item, 'imm')) for v in con.fields.values() if isinstance(v, tuple))
+        if keeps:
+            continue
+        n += 1
+        terms = [t for f in ru.formulas for t in terms_of(f)]
+        imm_terms = [t for t in terms if t[0] in ('IMM', 'IMMC')]
+        guarded = any(t[0] == 'ISARITH' for t in terms)
+        ok = bool(imm_terms) and all(t[0] == 'IMMC' for t in imm_terms) and guarded
+        why = ('no predicate pins the immediate' if not imm_terms else
+               'the immediate is evaluated with the live label environment' if any(t[0] == 'IMM' for t in imm_terms) else
+               'nothing establishes that the immediate is a plain arithmetic expression (it may be %lo / %offset of a label)')
+        report.check(ok, rule, "rule '{}' ({} -> {} without immediate) is decided on a final, label-independent immediate".format(ru.key, ru.name, con.mnemonic or con.cls),
+                     lambda ru=ru, con=con, why=why: Finding(rule, 'transform_compressible', con.node,
+                                                             "rule '{}' replaces {} by {}, which has no immediate, but {}: an immediate that depends on a label (the %lo half of a far "
+                                                             'call / tail, %lo(sym) after lui) can satisfy the test now and change when later labels move - by this very replacement - '
+                                                             'so the dropped offset makes the transfer land beside its label'.format(ru.key, ru.name, con.mnemonic or con.cls, why),
+                                                             line=getattr(con.node, 'lineno', None)))
+    report.count('immediate-dropping rules', n)
+
+
+ENUM_ASSIGN = {'ISARITH': True, 'ISOFFSET': False, 'KIND': False, 'UNDEF': False}
+
+
+def simplify(f, assign):
+    """Formula with the boolean atoms in `assign` ({term kind: bool}) replaced by constants and and/or/not folded."""
+    T, F_ = ('and', []), ('or', [])
+    k = f[0]
+    if k == 'cmp':
+        if f[1] == '==' and f[2][0] in assign and f[3] == ('const', True):
+            val = assign[f[2][0]]
+            if callable(val):
+                val = val(f[2])
+                if val is None:
+                    return f
+            return T if val else F_
+        if f[1] in ('==', '!=') and f[2][0] in ('IMM', 'IMMC', 'REG') and f[3] == ('const', None):
+            return F_ if f[1] == '==' else T          # an evaluated operand is a number, never None
+        return f
+    if k == 'not':
+        x = simplify(f[1], assign)
+        return F_ if x == T else (T if x == F_ else ('not', x))
+    if k in ('and', 'or'):
+        xs = [simplify(x, assign) for x in f[1]]
+        unit, zero = (T, F_) if k == 'and' else (F_, T)
+        if any(x == zero for x in xs):
+            return zero
+        flat = []
+        for x in xs:
+            if x == unit:
+                continue
+            if x[0] == k:
+                flat.extend(x[1])          # and-in-and / or-in-or
+            else:
+                flat.append(x)
+        if len(flat) == 1:
+            return flat[0]
+        return (k, flat)
+    return f
+
+
+def check_stable_decisions(report, rel, rule):
+    """A compression decision is taken while labels still move, and the encoder re-validates the operand at the very end.  A rule
+    may therefore look at the immediate only when its value cannot leave the rule's region any more: when it does not involve labels
+    (evaluated without the label table), or when it is a pc-relative label offset (moving labels only shrink such a distance towards
+    zero).  An absolute label-dependent immediate (%lo(sym), sym) that is inside the range now and outside it after later labels
+    moved makes the build fail under -c only."""
+    n = 0
+    for ru in rel.rules:
+        terms = [t for f in ru.formulas for t in terms_of(f)]
+        if not any(t[0] in ('IMM', 'IMMC') for t in terms):
+            continue
+        n += 1
+        kinds = lambda term, ru=ru: ru.inst_isa(term[1]) if term[1].startswith('inst isa ') else None
+        residual = [simplify(f, {'ISOFFSET': False, 'KIND': kinds}) for f in ru.formulas]
+        live = [t for f in residual for t in terms_of(f) if t[0] == 'IMM']
+        # a pc-relative label offset is a stable operand only for jumps and branches (moving labels bring the target closer, and
+        # the 32-bit form needs the same alignment); for any other instruction `!= 0` / `% 4 == 0` can stop holding
+        pcrel = oracle.RV32_FORMAT.get(ru.name) in ('J', 'B')
+        if not pcrel:
+            residual2 = [simplify(f, {'ISOFFSET': True, 'KIND': kinds}) for f in ru.formulas]
+            live = live + [t for f in residual2 for t in terms_of(f) if t[0] == 'IMM']
+        con = rel.constructions.get(ru.key)
+        node = con.node if con is not None else rel.pa.loop
+        report.check(not live, rule, "rule '{}' looks at the immediate only when it is final (label-free){}".format(ru.key, ' or the label target of the jump / branch' if pcrel else ''),
+                     lambda ru=ru, node=node: Finding(rule, 'transform_compressible', node,
+                                                      "rule '{}' tests the immediate against the live label table whatever kind of expression it is: an absolute label-dependent "
+                                                      'immediate (%lo(sym), a label used as a number) can be inside the compressed range now and outside it once later labels have moved; '
+                                                      'the compressed encoder then refuses a program that assembles without -c'.format(ru.key), line=getattr(node, 'lineno', None)))
+    report.count('rules that test the immediate', n)
